@@ -133,7 +133,10 @@ class C13(C01):
             for i, p, l, o, d, nr in zip(act, progs, lines, outs, news, new_raw):
                 h = hist[i]
                 cases.append((l, dict(base=h["base"], round=rnd, ops=p["ops"], old=prev_raw[i], new=nr, strict=h["strict"], nold=len(h["cur"]),
-                                      span=span_problem(h["cur"], d, prev_raw[i]))))
+                                      span=span_problem(h["cur"], d, prev_raw[i]),
+                                      # the list-based model is quadratic in the entry count: the 65,537-entry base is judged
+                                      # by the oracle on the implementation only
+                                      impl_only="65537" in h["base"])))
                 calls, _ = wprog.final_bytes(o)
                 fin_ok = calls is not None and isinstance(calls[-1], list) and calls[-1][0] == "Ok"
                 if fin_ok and d:
